@@ -22,7 +22,7 @@ import (
 type Fault struct {
 	Target     string `json:"target"`  // name of a watched path
 	Syscall    string `json:"syscall"` // openat | read | write | close
-	Errno      int    `json:"errno"`   // >0: fail with this errno; 0: succeed with return value 0 (premature EOF)
+	Errno      int    `json:"errno"`   // >0: fail with this errno; 0: succeed with return value 0 (premature EOF); <0: let the call proceed and deliver signal -Errno to the process at this point
 	When       int    `json:"when"`    // 1-based index among the calls of Syscall on Target
 	Persistent bool   `json:"persistent,omitempty"`
 }
@@ -286,7 +286,11 @@ func Run(sp *Spec) (*Result, error) {
 				if th.target != "" {
 					key := th.target + ":" + th.sys
 					res.Calls[key]++
-					if f := pick(th.target, th.sys, res.Calls[key]); f != nil {
+					if f := pick(th.target, th.sys, res.Calls[key]); f != nil && f.Errno < 0 {
+						// a signal arriving while this call is in flight
+						res.Injected = append(res.Injected, Injected{th.target, th.sys, f.Errno, res.Calls[key]})
+						_ = syscall.Kill(main, syscall.Signal(-f.Errno))
+					} else if f != nil {
 						th.pending = f
 						res.Injected = append(res.Injected, Injected{th.target, th.sys, f.Errno, res.Calls[key]})
 						regs.Orig_rax = ^uint64(0) // skip the call
